@@ -464,10 +464,171 @@ Qed.
 Lemma forallb_ext_in' {A} (f g : A -> bool) l : (forall x, In x l -> f x = g x) -> forallb f l = forallb g l.
 Proof. induction l as [|a r IH]; cbn; intros H; [reflexivity|]. rewrite H by now left. f_equal. apply IH. intros x Hx. apply H. now right. Qed.
 
+(* ====================================================================== the two forms with an aggregate *)
+Lemma fn_tables f : exists op sym, fn_op f = Some op /\ assoc aggop_eqb op asp_aggregate_symbols = Some sym /\ fn_of_symbol sym = Some f.
+Proof. destruct f; vm_compute; eexists _, _; repeat split; reflexivity. Qed.
+
+Lemma all_bindings_one v U : all_bindings [v] U = map (fun x => [(v, x)]) U.
+Proof. cbn [all_bindings]. induction U as [|x r IH]; [reflexivity|]. cbn in *. now rewrite IH. Qed.
+
+Section AggForms.
+  Variable sp : pspec.
+  Variable I : interp.
+  Hypothesis Hadm : adm sp I.
+  Let W := world sp.
+
+  (* #f{D: host(D,_)} / #f{D: host(_,D)} *)
+  Lemma agg_all_eval op sym f (c : col) :
+    assoc aggop_eqb op asp_aggregate_symbols = Some sym -> fn_of_symbol sym = Some f -> c <> KWeight ->
+    agg_eval W I [] {| t_op := op; t_atom_tuple := false; t_tuple := [TV "#d"];
+                       t_conds := [match c with KRoom => CHost (TV "#d") TAnon | _ => CHost TAnon (TV "#d") end] |}
+    = Some (agg_value f (map (fun t => [colval c t]) (triples W I))).
+  Proof.
+    intros Hs Hf Hc. unfold agg_eval. cbn [t_op]. rewrite Hs, Hf. f_equal.
+    assert (L : filter (fun v => match sassoc v (@nil (string * Z)) with Some _ => false | None => true end)
+                       (agg_vars {| t_op := op; t_atom_tuple := false; t_tuple := [TV "#d"];
+                                    t_conds := [match c with KRoom => CHost (TV "#d") TAnon | _ => CHost TAnon (TV "#d") end] |}) = ["#d"%string]).
+    { destruct c; reflexivity. }
+    cbn [t_conds t_tuple]. rewrite L, all_bindings_one. apply agg_value_set. intros t.
+    rewrite !in_map_iff. split.
+    - intros (l & <- & Hl). apply filter_In in Hl as [Hl Hsat]. apply in_map_iff in Hl as (x & <- & Hx).
+      destruct c; try (now contradiction Hc); cbn in Hsat; rewrite andb_true_r in Hsat; apply existsb_exists in Hsat as ([r s] & Hin & E); cbn in E;
+        apply Z.eqb_eq in E; destruct (Hadm r s Hin) as [Hr Hs']; apply in_map_iff in Hs' as ([s' w] & Es & Hsw); cbn in Es; subst s'.
+      + subst x. exists (r, (s, w)). split; [reflexivity|]. apply triples_In. repeat split; auto.
+      + subst x. exists (r, (s, w)). split; [reflexivity|]. apply triples_In. repeat split; auto.
+    - intros ([r [s w]] & <- & Hin). apply triples_In in Hin as (Hr & Hs' & Hh).
+      destruct c; try (now contradiction Hc); cbn [colval fst snd].
+      + exists [("#d"%string, r)]. split; [reflexivity|]. apply filter_In. split.
+        * apply in_map_iff. exists r. split; [reflexivity|]. now apply in_universe_room.
+        * cbn. rewrite andb_true_r. apply existsb_exists. exists (r, s). split; [exact Hh|]. cbn. apply Z.eqb_refl.
+      + exists [("#d"%string, s)]. split; [reflexivity|]. apply filter_In. split.
+        * apply in_map_iff. exists s. split; [reflexivity|]. apply in_universe_shelf. now apply shelf_id_of with w.
+        * cbn. rewrite andb_true_r. apply existsb_exists. exists (r, s). split; [exact Hh|]. cbn. apply Z.eqb_refl.
+  Qed.
+
+  (* #f{D: host(R,D)} with R bound to a room *)
+  Lemma agg_room_eval op sym f r :
+    assoc aggop_eqb op asp_aggregate_symbols = Some sym -> fn_of_symbol sym = Some f ->
+    agg_eval W I [("R"%string, r)] {| t_op := op; t_atom_tuple := false; t_tuple := [TV "#d"]; t_conds := [CHost (TV "R") (TV "#d")] |}
+    = Some (agg_value f (map (fun t => [colval KShelf t]) (filter (fun t => Z.eqb (colval KRoom t) r) (triples W I)))).
+  Proof.
+    intros Hs Hf. unfold agg_eval. cbn [t_op]. rewrite Hs, Hf. f_equal.
+    change (filter _ (agg_vars _)) with ["#d"%string]. rewrite all_bindings_one. cbn [t_conds t_tuple]. apply agg_value_set. intros t.
+    rewrite !in_map_iff. split.
+    - intros (l & <- & Hl). apply filter_In in Hl as [Hl Hsat]. apply in_map_iff in Hl as (x & <- & Hx).
+      cbn in Hsat. rewrite andb_true_r in Hsat. apply holds_host_In in Hsat. destruct (Hadm r x Hsat) as [Hr Hs'].
+      apply in_map_iff in Hs' as ([s' w] & Es & Hsw). cbn in Es. subst s'.
+      exists (r, (x, w)). split; [reflexivity|]. apply filter_In. split; [|cbn; apply Z.eqb_refl]. apply triples_In. repeat split; auto.
+    - intros ([r' [s w]] & <- & Hin). apply filter_In in Hin as [Hin Er]. cbn [colval fst snd] in Er. apply Z.eqb_eq in Er. subst r'.
+      apply triples_In in Hin as (Hr & Hs' & Hh). cbn [colval fst snd].
+      exists [("#d"%string, s)]. split; [reflexivity|]. apply filter_In. split.
+      + apply in_map_iff. exists s. split; [reflexivity|]. apply in_universe_shelf. now apply shelf_id_of with w.
+      + cbn. rewrite andb_true_r. now apply holds_host_In.
+  Qed.
+End AggForms.
+
+Lemma sgn0 ng : sgn ng 0 = 0. Proof. now destruct ng. Qed.
+Lemma agg_sum_single z : agg_value ASum [[z]] = EFin z.
+Proof. unfold agg_value. cbn. f_equal. lia. Qed.
+
+Definition form_ok (f : pform) : bool := match f with PAggAll _ KWeight => false | _ => true end.
+
+Lemma sum_filter_zero {A} (h : A -> Z) (keep : A -> bool) l :
+  (forall a, keep a = false -> h a = 0) -> fold_right Z.add 0 (map h (filter keep l)) = fold_right Z.add 0 (map h l).
+Proof.
+  intros H. induction l as [|a r IH]; cbn; [reflexivity|]. destruct (keep a) eqn:E; cbn; rewrite IH; [reflexivity|]. rewrite (H a E). lia.
+Qed.
+
+Lemma agg_all_cost sp I p w f c :
+  adm sp I -> pf_form p = PAggAll f c -> c <> KWeight -> pf_dir p <> DAsMuch -> compile_pref p = Some w ->
+  w_level w = rank (pf_prio p) /\ agg_value ASum (wc_elements sp I w) = EFin (directed sp I p).
+Proof.
+  intros Hadm Hf Hc Hd Hw. unfold compile_pref in Hw. rewrite prio_level_rank, (dir_neg_wants _ Hd), Hf in Hw.
+  destruct (fn_tables f) as (op & sym & Hop & Hsym & Hfn). rewrite Hop in Hw. injection Hw as <-. split; [reflexivity|].
+  rewrite directed_sgn. unfold quantity. rewrite Hf.
+  unfold wc_elements. cbn [w_body w_neg w_weight w_level w_tuple]. change (wc_globals _) with (@nil string).
+  cbn [all_bindings flat_map wbody_true].
+  pose proof (agg_all_eval sp I Hadm op sym f c Hsym Hfn Hc) as E. cbv zeta in E. rewrite E.
+  cbn [wbody_true sassoc assoc String.eqb Ascii.eqb Bool.eqb map app].
+  destruct (agg_value f (map (fun t => [colval c t]) (triples (world sp) I))) as [|z|]; cbn [fin app].
+  - now rewrite sgn0.
+  - apply agg_sum_single.
+  - now rewrite sgn0.
+Qed.
+
+Section PerRoom.
+  Variable sp : pspec.
+  Variable I : interp.
+  Hypothesis Hadm : adm sp I.
+  Let W := world sp.
+  Variables (op : aggop) (sym : string) (f : aggfn) (ng : bool) (lvl : Z).
+  Hypothesis Hsym : assoc aggop_eqb op asp_aggregate_symbols = Some sym.
+  Hypothesis Hfn : fn_of_symbol sym = Some f.
+  Let a : aggt := {| t_op := op; t_atom_tuple := false; t_tuple := [TV "#d"]; t_conds := [CHost (TV "R") (TV "#d")] |}.
+  Let w : wc := {| w_body := [WRoom "R"; WAgg a "#r"]; w_neg := ng; w_weight := WVarW "#r"; w_level := lvl; w_tuple := ["R"%string] |}.
+  Let val (r : Z) : ext := agg_value f (map (fun t => [colval KShelf t]) (filter (fun t => Z.eqb (colval KRoom t) r) (triples W I))).
+  Let is_fin (e : ext) : bool := match e with EFin _ => true | _ => false end.
+
+  Lemma per_room_elements t :
+    In t (wc_elements sp I w) <-> exists r, In r (filter (fun r => is_fin (val r)) (rooms W)) /\ t = [sgn ng (fin (val r)); r].
+  Proof.
+    unfold wc_elements. change (wc_globals w) with ["R"%string]. rewrite all_bindings_one, in_flat_map. split.
+    - intros (g & Hg & Ht). apply in_map_iff in Hg as (x & <- & Hx). cbn [w w_body wbody_true sassoc assoc String.eqb Ascii.eqb Bool.eqb] in Ht.
+      destruct (is_room (world sp) x) eqn:Er; [|destruct Ht].
+      pose proof (agg_room_eval sp I Hadm op sym f x Hsym Hfn) as E. cbv zeta in E. fold a in E. rewrite E in Ht. fold W in Ht. fold (val x) in Ht.
+      cbn [wbody_true w_weight w_neg w_tuple sassoc assoc String.eqb Ascii.eqb Bool.eqb map] in Ht.
+      destruct (val x) as [|z|] eqn:Ev; try (destruct Ht; fail). cbn in Ht. destruct Ht as [<-|[]].
+      exists x. split.
+      + apply filter_In. split; [now apply existsb_eqb_In in Er|]. unfold is_fin. now rewrite Ev.
+      + now rewrite Ev.
+    - intros (r & Hr & ->). apply filter_In in Hr as [Hr Hfin]. exists [("R"%string, r)]. split.
+      + apply in_map_iff. exists r. split; [reflexivity|]. now apply in_universe_room.
+      + cbn [w w_body wbody_true sassoc assoc String.eqb Ascii.eqb Bool.eqb].
+        assert (Er : is_room (world sp) r = true) by now apply existsb_eqb_In.
+        rewrite Er. pose proof (agg_room_eval sp I Hadm op sym f r Hsym Hfn) as E. cbv zeta in E. fold a in E. rewrite E. fold W. fold (val r).
+        cbn [wbody_true w_weight w_neg w_tuple sassoc assoc String.eqb Ascii.eqb Bool.eqb map].
+        unfold is_fin in Hfin. destruct (val r) as [|z|]; try discriminate. cbn. now left.
+  Qed.
+
+  Lemma per_room_cost :
+    agg_value ASum (wc_elements sp I w) = EFin (sgn ng (fold_right Z.add 0 (map (fun r => fin (val r)) (rooms W)))).
+  Proof.
+    rewrite (cost_of_image (wc_elements sp I w) (filter (fun r => is_fin (val r)) (rooms W)) (fun r => [sgn ng (fin (val r)); r])).
+    - cbn [weight_of hd]. rewrite (sum_sgn ng (fun r => fin (val r))). f_equal. f_equal.
+      apply sum_filter_zero. intros r Hr. unfold is_fin in Hr. now destruct (val r).
+    - apply NoDup_filter'. apply NoDup_rooms.
+    - intros x y _ _ E. now injection E.
+    - exact per_room_elements.
+  Qed.
+End PerRoom.
+
+Lemma agg_room_cost sp I p w f :
+  adm sp I -> pf_form p = PAggPerRoom f -> pf_dir p <> DAsMuch -> compile_pref p = Some w ->
+  w_level w = rank (pf_prio p) /\ agg_value ASum (wc_elements sp I w) = EFin (directed sp I p).
+Proof.
+  intros Hadm Hf Hd Hw. unfold compile_pref in Hw. rewrite prio_level_rank, (dir_neg_wants _ Hd), Hf in Hw.
+  destruct (fn_tables f) as (op & sym & Hop & Hsym & Hfn). rewrite Hop in Hw. injection Hw as <-. split; [reflexivity|].
+  rewrite directed_sgn. unfold quantity. rewrite Hf.
+  exact (per_room_cost sp I Hadm op sym f (wants_max (pf_dir p)) (rank (pf_prio p)) Hsym Hfn).
+Qed.
+
+(* every form *)
+Lemma pref_cost sp I p w :
+  adm sp I -> NoDup (shelf_ids (world sp)) -> form_ok (pf_form p) = true -> pf_dir p <> DAsMuch -> compile_pref p = Some w ->
+  w_level w = rank (pf_prio p) /\ agg_value ASum (wc_elements sp I w) = EFin (directed sp I p).
+Proof.
+  intros Hadm Hids Hok Hd Hw. destruct (pf_form p) as [f c|f|c| |c ph k] eqn:Ef.
+  - apply (agg_all_cost sp I p w f c); auto. intros ->. discriminate Hok.
+  - apply (agg_room_cost sp I p w f); auto.
+  - apply simple_cost; auto. now rewrite Ef.
+  - apply simple_cost; auto. now rewrite Ef.
+  - apply simple_cost; auto. now rewrite Ef.
+Qed.
+
 (* ------------------------------------------------------------------ the theorem *)
 Definition wf_pspec (sp : pspec) : Prop :=
   NoDup (shelf_ids (world sp)) /\ NoDup (map rankp (p_prefs sp)) /\
-  (forall p, In p (p_prefs sp) -> simple_form (pf_form p) = true /\ pf_dir p <> DAsMuch).
+  (forall p, In p (p_prefs sp) -> form_ok (pf_form p) = true /\ pf_dir p <> DAsMuch).
 
 Theorem wc_optimal_is_reading_optimal sp ws space I :
   wf_pspec sp -> compile_prefs sp = Some ws -> wc_optimal_in sp ws space I = optimal_in sp space I.
@@ -490,7 +651,7 @@ Proof.
       - exists w. split; [now left|exact Hqw].
       - destruct (IH Hp) as (w' & Hin & E). exists w'. split; [now right|exact E]. }
     destruct Hw as (w & Hin & Ew). destruct (Hsimple p Hp) as [Hs Hd].
-    destruct (simple_cost sp K p w Hadm Hids Hs Hd Ew) as [Hl Hq].
+    destruct (pref_cost sp K p w Hadm Hids Hs Hd Ew) as [Hl Hq].
     assert (E : EFin (level_cost sp K ws (rankp p)) = EFin (directed sp K p)).
     { rewrite level_cost_agg. unfold rankp. rewrite <- Hl. rewrite filter_level_unique; [|now rewrite Hlv|exact Hin].
       cbn [flat_map]. now rewrite app_nil_r. }
@@ -501,3 +662,4 @@ Proof.
   destruct (hard sp J) eqn:HJ; [|reflexivity]. cbn [andb]. f_equal.
   apply better_agree. intros p Hp. apply (proj1 (by_priority_In _ _)) in Hp. split; apply Hcost; assumption.
 Qed.
+
